@@ -285,8 +285,10 @@ func (s *Support) Cases(thorough bool) []*Case {
 	sp("CXBigEmptyMapM", "big-empty-struct-map-in-message", &Record{Kind: Message, Fields: []Field{{Name: "m", Index: 1, Type: M("uint32", s.Leaf("SupEmpty"))}, {Name: "n", Index: 2, Type: P("int32")}}})
 	sp("CXBigMsg", "big-message", &Record{Kind: Message, Fields: []Field{{Name: "s", Index: 1, Type: P("string")}, {Name: "a", Index: 2, Type: A(P("uint16"))}, {Name: "b", Index: 3, Type: A(P("byte"))}}})
 	// the big message nested in a struct, and a struct with a big payload nested in a message
-	bigMsg := out[len(out)-1].Rec
-	sp("CXBigHoldMsg", "big-message-in-struct", &Record{Kind: Struct, Fields: []Field{bait(), {Name: "m", Type: R(bigMsg)}, after()}})
+	// (a copy of the big message travels with the case: in the thorough tier the two cases can land in different batches)
+	bigMsg := &Record{Kind: Message, Name: "CXBigMsgIn", Support: true, Label: "message:big", Fields: []Field{{Name: "s", Index: 1, Type: P("string")}, {Name: "a", Index: 2, Type: A(P("uint16"))}, {Name: "b", Index: 3, Type: A(P("byte"))}}}
+	out = append(out, &Case{ID: "CXBigHoldMsg", Ctx: "X", Class: "X|big-message-in-struct", Extra: []*Record{bigMsg},
+		Rec: &Record{Kind: Struct, Name: "CXBigHoldMsg", Fields: []Field{bait(), {Name: "m", Type: R(bigMsg)}, after()}}})
 	bigStr := &Record{Kind: Struct, Name: "CXBigInner", Support: true, Label: "struct:var", Fields: []Field{{Name: "n", Type: P("uint32")}, {Name: "b", Type: A(P("byte"))}}}
 	out = append(out, &Case{ID: "CXBigInMsg", Ctx: "X", Class: "X|big-struct-in-message", Extra: []*Record{bigStr},
 		Rec: &Record{Kind: Message, Name: "CXBigInMsg", Fields: []Field{{Name: "bait", Index: 1, Type: P("int32")}, {Name: "s", Index: 2, Type: R(bigStr)}}}})
